@@ -1153,6 +1153,10 @@ def str_method(I, s, name, args, node):
                 "split_whitespace", "repeat", "trim_matches", "trim_start_matches", "trim_end_matches"):
         if s.conc and name in ("trim", "trim_start", "trim_end"):
             return Str({"trim": s.s.strip(), "trim_start": s.s.lstrip(), "trim_end": s.s.rstrip()}[name])
+        if s.conc and name in ("to_lowercase", "to_uppercase") and s.s.isascii():
+            return Str(s.s.lower() if name == "to_lowercase" else s.s.upper())
+        if s.conc and name == "split_whitespace":
+            return IterV([Str(x) for x in s.s.split()])
         I.havocs.add("str::" + name)
         return Opaque("str::" + name)
     if name in ("eq", "ne"):
